@@ -1,7 +1,7 @@
 (* C10 - Dutch auctions settle completely and sell at the posted, falling price.
    Property theorems only; each is closed by [exact] of a lemma proved in Proofs/DutchProofs*.v. *)
 From Comdex Require Import Lib.Base Lib.DecArith Lib.DecFacts Model.DutchV2 Proofs.DutchProofsPrice Proofs.DutchProofsBid
-  Proofs.DutchProofsClose Proofs.DutchProofsConv.
+  Proofs.DutchProofsClose Proofs.DutchProofsConv Proofs.DutchProofsFill.
 
 (* ------------------------------------------------------------------------------------------ *)
 (* Price clauses (generation 2).  [posted_price init disc dur t] is what UpdateDutchAuction writes
@@ -64,15 +64,18 @@ Proof. vm_compute. repeat split; congruence. Qed.
 
 (* ------------------------------------------------------------------------------------------ *)
 (* Totals.  [run cf lk f ops] threads one auction through ANY finite history of MsgPlaceMarketBid
-   (any bidder, any amount incl. 0 / negative / over-sized / wrong denom, any debt oracle value) and
-   block ticks (any time, any oracle values, active or not); each op is atomic (a failing message or
-   iterator body leaves the state as it was).  [good_cfg]: positive asset Decimals, premium >= 0,
-   end factor in [0,1], duration >= 0, advertised bonus >= 0.  [op_ok]: oracle values are uint64s
-   below 2^63.  f_paid / f_recv sum what the bidders paid and received.                           *)
-Theorem c10_totals : forall cf lk now pc pd a0 s ops,
+   (any bidder, any amount incl. 0 / negative / over-sized / wrong denom, any debt oracle value),
+   block ticks (any time, any oracle values, active or not), MsgDepositLimitBid (any bidder, premium,
+   amount) and automatic fills (LimitOrderBid closures: any listing order, any debt oracle value, active
+   or not) from any limit-bid book; each op is atomic (a failing message, iterator body or closure leaves
+   the state as it was).  [good_cfg]: positive asset Decimals, premium >= 0, end factor in [0,1],
+   duration >= 0, advertised bonus >= 0.  [op_ok]: oracle values are uint64s below 2^63.
+   f_paid / f_recv sum what the bidders paid and received: a market bid pays coins, a fill's bid is paid
+   by its limit bid being charged (c10_fill_charges: charged = bid).                               *)
+Theorem c10_totals : forall cf lk now pc pd a0 s bk pool ops,
   good_cfg cf lk -> 0 <= l_target lk -> 0 <= l_coll lk -> tick_in_ok pc ->
   activate cf lk now pc pd = Ok a0 -> Forall op_ok ops ->
-  let f := run cf lk (mkLife s (Some a0) 0 0 0) ops in
+  let f := run cf lk (mkLife s (Some a0) 0 0 0 bk pool) ops in
   0 <= f_paid f <= l_target lk /\ 0 <= f_recv f <= l_coll lk /\
   match f_a f with
   | Some a => f_paid f + a_debt a = l_target lk /\ f_recv f + a_coll a = l_coll lk /\ 0 <= a_debt a /\ 0 <= a_coll a /\
@@ -196,8 +199,8 @@ Print Assumptions c10_partial_bid_ledger.
    (ErrorInvalidAppOrAssetData) and the life is unchanged ... *)
 Example c10_short_reserve_rejected :
   place_bid_core w_cf w_lk w_au (w_s 1000) 0 27429945 false 1000000 = Err 3 /\
-  forall p rc t, step w_cf w_lk (mkLife (w_s 1000) (Some w_au) p rc t) (Bid 0 27429945 false 1000000)
-                 = mkLife (w_s 1000) (Some w_au) p rc t.
+  forall p rc t, step w_cf w_lk (mkLife (w_s 1000) (Some w_au) p rc t nobook 0) (Bid 0 27429945 false 1000000)
+                 = mkLife (w_s 1000) (Some w_au) p rc t nobook 0.
 Proof. exact reserve_short_rejected. Qed.
 
 (* ... and with a reserve that covers the shortfall the same bid closes, fully backed (non-vacuity
@@ -223,16 +226,215 @@ Proof. exact external_closes. Qed.
 (* non-vacuity: a vault-initiated auction (target 1120000 = 1000000 + 12 %, internal keeper, 10 %
    incentive) takes a partial bid, a tick, and a closing bid; everything is distributed *)
 Definition ex_cf : acfg := mkCfg (12 * P18 / 10) (7 * P18 / 10) 3600 100000 (P18 / 10) 1000000 1000000.
-Definition ex_lk : locked := mkLk 1000000 1120000 120000 0 0 true false.
+Definition ex_lk : locked := mkLk 1000000 1120000 120000 0 0 true false false.
 Definition ex_led : ledger := fun k => if k =? 0 then 1000000 else if k =? 11 then 5000000 else if k =? 13 then 5000000 else 0.
 Example c10_nonvacuous :
   exists a0, activate ex_cf ex_lk 0 (Some 1200000) (Some 1000000) = Ok a0 /\
-  let f := run ex_cf ex_lk (mkLife (mkS ex_led None 0) (Some a0) 0 0 0)
+  let f := run ex_cf ex_lk (mkLife (mkS ex_led None 0 0) (Some a0) 0 0 0 nobook 0)
                [Bid 0 400000 false 1000000; Tick 600 (Some 1200000) (Some 1000000); Bid 1 9999999 false 1000000] in
   f_a f = None /\ f_paid f = 1120000 /\ f_recv f = 804092 /\
   led (f_s f) AUC_C = 0 /\ led (f_s f) AUC_D = 0 /\ led (f_s f) BRN_D = 1000000 /\
-  led (f_s f) COL_D = 108000 /\ led (f_s f) KEE_D = 12000 /\ led (f_s f) OWN_C = 195908.
+  led (f_s f) COL_D = 108000 /\ led (f_s f) KEE_D = 12000 /\ nfee (f_s f) = 108000 /\ led (f_s f) OWN_C = 195908.
 Proof. eexists. split; [vm_compute; reflexivity|]. vm_compute. repeat split; reflexivity. Qed.
+
+(* ------------------------------------------------------------------------------------------ *)
+(* The automatic fill of limit bids (auctionsV2.BeginBlocker -> LimitOrderBid; one closure per auction whose
+   posted price is below the oracle price in the record and whose whole-percent discount has limit bids).
+   The model follows the code after fixes/C10-F6 and fixes/C10-F5 (known findings C10-F6 / C10-F5, both
+   reproduced on the original code and repaired; the witnesses are the Examples below and the harness
+   corpus).  [fill_closure cf lk order twa dact a s bk pool] = Ok (s', a', bk', pool', log): the log lists
+   the bids of the closure (bidder, the auction record the bid was placed on, what it did).            *)
+
+(* the shape of a closure: every limit bid is placed, as an automatic bid of its whole amount, on the
+   auction AS THE PREVIOUS BID OF THE CLOSURE LEFT IT (on the original code: on the copy read before the
+   loop, C10-F6), nothing follows a closing bid, and no limit bid is charged more than it holds *)
+Theorem c10_fill_trace : forall cf lk order twa dact a s bk pool s' a' bk' pool' log,
+  fill_closure cf lk order twa dact a s bk pool = Ok (s', a', bk', pool', log) ->
+  fill_trace cf lk twa a s log a' s'.
+Proof. exact fill_closure_trace. Qed.
+Print Assumptions c10_fill_trace.
+
+(* what the limit bids pay: the pool (LimitBidProtocolData.BidValue) falls by exactly what the bids of the
+   closure bid; the limit bid of each bidder at the auction's discount falls by exactly what its own bids
+   bid (on the original code: by min(record, auction debt) even when the bid was cut down to the value of
+   the left-over collateral, C10-F5); no other record moves; no record goes negative *)
+Theorem c10_fill_charges : forall cf lk order twa dact a s bk pool s' a' bk' pool' log,
+  fill_closure cf lk order twa dact a s bk pool = Ok (s', a', bk', pool', log) ->
+  pool' = pool - log_paid log /\
+  exists prem, (forall p w, bk' p w = bk p w - (if p =? prem then log_charged w log else 0)) /\
+               ((forall p w, 0 <= bk p w) -> forall p w, 0 <= bk' p w).
+Proof. exact fill_closure_charges. Qed.
+Print Assumptions c10_fill_charges.
+
+(* every bid of a fill exchanges at the posted price: the same extracted predicate as for market bids, with
+   "paid" = what the limit bid is charged *)
+Theorem c10_fill_price : forall cf lk order twa dact a s bk pool s' a' bk' pool' log,
+  good_cfg cf lk -> good_auction cf lk a -> 0 <= twa < 9223372036854775808 ->
+  c_dc cf <= P18 -> c_dc cf <= a_price a -> c_dd cf <= P18 -> c_dd cf <= dp_of lk twa ->
+  fill_closure cf lk order twa dact a s bk pool = Ok (s', a', bk', pool', log) ->
+  Forall (fun e => holds_C10_bid (c_dc cf) (c_dd cf) (a_price (fb_before e)) (dp_of lk twa)
+                     (a_coll (fb_before e)) (a_debt (fb_before e)) (a_bonus (fb_before e))
+                     (r_paid (fb_res e)) (r_recv (fb_res e)) (r_closed (fb_res e)) = true) log.
+Proof.
+  intros cf lk order twa dact a s bk pool s' a' bk' pool' log GC GA Htwa H1 H2 H3 H4 E.
+  exact (fill_trace_price cf lk twa a s log a' s' GC Htwa H1 H3 H4 (fill_closure_trace _ _ _ _ _ _ _ _ _ _ _ _ _ _ E) GA H2).
+Qed.
+Print Assumptions c10_fill_price.
+
+(* close completeness of a closing AUTOMATIC bid: as c10_close_complete, except that the bid brings no
+   coins - what it bids is taken from the limit-bid pool the auction account already holds, so the account's
+   debt balance falls by that much more (and the pool by the same amount, c10_fill_charges), and the bidder's
+   own debt balance does not move *)
+Theorem c10_auto_close_complete : forall cf lk a s who amt0 twa s' r,
+  good_cfg cf lk -> good_auction cf lk a -> 0 <= twa < 9223372036854775808 -> 0 <= l_fee lk -> 0 <= who ->
+  place_bid_gen true cf lk a s who amt0 false twa = Ok (s', None, r) ->
+  r_paid r + r_topup r = a_debt a /\
+  led s' AUC_C = led s AUC_C - a_coll a /\
+  led s' AUC_D - xfee s' = led s AUC_D - xfee s - (l_target lk - a_debt a) - r_paid r /\
+  led s' OWN_C + led s' (BID_C who) = led s OWN_C + led s (BID_C who) + a_coll a /\
+  led s' (BID_D who) = led s (BID_D who) /\
+  led s' LIQ_D = led s LIQ_D - r_topup r.
+Proof.
+  intros cf lk a s who amt0 twa s' r GC GA Htwa Hfee Hw E.
+  destruct (close_complete_gen true _ _ _ _ _ _ _ _ _ _ GC GA Htwa Hfee Hw E) as (H1 & H2 & H3 & H4 & H5 & H6 & _).
+  repeat split; try assumption; lia.
+Qed.
+Print Assumptions c10_auto_close_complete.
+
+(* Custody over the whole life of one auction, by induction over ANY history of market bids, ticks, limit-bid
+   deposits and fills ([op_ok2]: bidders are accounts, oracle values below 2^63): beyond the live auction's
+   remaining collateral the auction account holds what it held before the auction minus the seized lot;
+   beyond the booked external fees, the limit-bid pool and what the live auction has collected so far, its
+   debt balance is what it was - "no unaccounted remainder stays in auction custody", at every point of the
+   history and after the close. *)
+Theorem c10_custody : forall cf lk now pc pd a0 s bk pool ops,
+  good_cfg cf lk -> 0 <= l_target lk -> 0 <= l_coll lk -> 0 <= l_fee lk -> tick_in_ok pc ->
+  activate cf lk now pc pd = Ok a0 -> Forall op_ok2 ops ->
+  let f := run cf lk (mkLife s (Some a0) 0 0 0 bk pool) ops in
+  led (f_s f) AUC_C - live_coll (f_a f) = led s AUC_C - l_coll lk /\
+  led (f_s f) AUC_D - xfee (f_s f) - f_pool f - collected lk (f_a f) = led s AUC_D - xfee s - pool.
+Proof. exact custody. Qed.
+Print Assumptions c10_custody.
+
+(* The penalty of EVERY closing bid, market or automatic, as the extracted predicate the runner evaluates on
+   the implementation: vault-initiated - what reached the collector plus what the (internal) keeper got is
+   LockedVault.FeeToBeCollected and the collector's net-fee book grows by exactly what reached the collector
+   (not by the gross penalty); without an internal keeper the collector gets all of it; external / lend: the
+   collector and its book are not involved.  A partial bid touches neither. *)
+Theorem c10_penalty_split : forall auto cf lk a s who amt0 wd twa s' r,
+  good_cfg cf lk -> good_auction cf lk a -> 0 <= twa < 9223372036854775808 -> 0 <= l_fee lk -> 0 <= who ->
+  place_bid_gen auto cf lk a s who amt0 wd twa = Ok (s', None, r) ->
+  holds_C10_penalty (l_init lk) (l_fee lk) (led s' COL_D - led s COL_D) (led s' KEE_D - led s KEE_D) (nfee s' - nfee s) = true /\
+  (l_init lk = 0 -> l_intk lk = false -> led s' COL_D - led s COL_D = l_fee lk).
+Proof. exact penalty_split. Qed.
+Print Assumptions c10_penalty_split.
+
+Theorem c10_partial_no_penalty : forall auto cf lk a s who amt0 wd twa s' b r,
+  good_cfg cf lk -> good_auction cf lk a -> 0 <= twa < 9223372036854775808 -> 0 <= who ->
+  place_bid_gen auto cf lk a s who amt0 wd twa = Ok (s', Some b, r) ->
+  led s' COL_D = led s COL_D /\ led s' KEE_D = led s KEE_D /\ nfee s' = nfee s.
+Proof. exact partial_no_penalty. Qed.
+Print Assumptions c10_partial_no_penalty.
+
+(* "When the auction ends ..." presupposes that it can end.  FALSE for a lend-initiated auction of a CROSS-POOL
+   borrow whose lend position was used up by the borrow (known finding C10-F7): UpdateLockedBorrows deletes the
+   emptied lend position when the borrow is seized; MsgCloseDutchAuctionForBorrow later looks that position up
+   for the pool to return the bridged amount to, gets the zero value, and sends the amount to the module
+   account "" - the bank keeper panics, the closing bid is rolled back.  Partial bids go through, so bidders'
+   payments pile up in the auction account while no bid - market or automatic, of any amount - can ever close
+   the auction.  Witness = harness TestC10Lend (first seen: VERIF_SEED=1 case 15 step 7). *)
+Theorem c10_lend_close_refuted :
+  kf_C10_7 s_lk = true /\
+  place_bid_core s_cf s_lk s_au (mkS s_led None 0 0) 0 1050000 false 1000000 = Panic /\
+  place_bid_core s_cf s_lk s_au (mkS s_led None 0 0) 0 9999999 false 1000000 = Panic /\
+  (exists s' b r, place_bid_core s_cf s_lk s_au (mkS s_led None 0 0) 0 500000 false 1000000 = Ok (s', Some b, r)) /\
+  (forall auto cf lk a s who amt wd twa s' r,
+     place_bid_gen auto cf lk a s who amt wd twa = Ok (s', None, r) -> kf_C10_7 lk = false).
+Proof.
+  destruct lend_close_stuck as (A & B & C & D). repeat split; auto. exact stuck_never_closes.
+Qed.
+Print Assumptions c10_lend_close_refuted.
+
+(* outside the class the lend-initiated settlement goes through whenever the auction account holds the target
+   debt (which c10_custody guarantees at the closing bid): exactly the target debt moves to the lending pool *)
+Theorem c10_lend_close_partial : forall cf lk L xf nf,
+  l_init lk <> 0 -> l_init lk <> 2 -> kf_C10_7 lk = false -> 0 <= l_target lk <= L AUC_D ->
+  exists L', settle cf lk L xf nf = Ok (L', xf, nf) /\ L' POOL_D = L POOL_D + l_target lk /\ L' AUC_D = L AUC_D - l_target lk.
+Proof. exact lend_settle_live. Qed.
+Print Assumptions c10_lend_close_partial.
+
+(* regression, C10-F5 (fixed) = harness corpus case 4: external auction, target 1 120 000 (penalty 120 000),
+   collateral 1 000 000, app reserve 10 000 000, limit bid 3 000 000 at discount 9; block at t = 2940 s
+   (posted price 0.906, discount 9.4 %).  The bid is cut down to the value of the collateral, 906 000; the
+   reserve pays 214 000.  Before the repair the limit bid was charged the whole debt 1 120 000 (1.12 per ucol
+   against a posted 0.906) and 214 000 stayed in the auction account owned by nothing; now it is charged
+   906 000 and the account holds exactly the remaining limit bid plus the booked penalty *)
+Definition f_cf : acfg := mkCfg (12 * P18 / 10) (7 * P18 / 10) 3600 0 0 1000000 1000000.
+Definition f5_lk : locked := mkLk 1000000 1120000 120000 0 2 false false false.
+Definition f5_led : ledger := fun k => if k =? 0 then 1000000 else if k =? 7 then 10000000 else if k =? 11 then 5000000 else 0.
+Example c10_fill_cut_down_regression :
+  exists a0, activate f_cf f5_lk 0 (Some 1000000) (Some 1000000) = Ok a0 /\
+  let f := run f_cf f5_lk (mkLife (mkS f5_led (Some 10000000) 0 0) (Some a0) 0 0 0 nobook 0)
+               [Deposit 0 9 3000000 false; Tick 2940 (Some 1000000) (Some 1000000); Fill [0] 1000000 true] in
+  f_a f = None /\ f_paid f = 906000 /\ f_recv f = 1000000 /\ f_top f = 214000 /\
+  f_book f 9 0 = 2094000 /\ f_pool f = 2094000 /\ xfee (f_s f) = 120000 /\
+  led (f_s f) AUC_D = 2094000 + 120000 /\ led (f_s f) AUC_C = 0 /\ led (f_s f) INI_D = 1000000 /\
+  led (f_s f) (BID_C 0) = 1000000 /\ led (f_s f) (BID_D 0) = 2000000 /\ led (f_s f) LIQ_D = 9786000.
+Proof. eexists. split; [vm_compute; reflexivity|]. vm_compute. repeat split; reflexivity. Qed.
+
+(* regression, C10-F6 (fixed) = harness corpus case 5: debt 500 003, collateral 1 000 006, limit bids of 1
+   (bidder 0) and 999 (bidder 1) at discount 5, block at t = 2550 s (price 0.945).  Before the repair both
+   bids were placed on the auction copy read before the loop: the record ended at debt 500 002 / collateral
+   1 000 005 while 1 058 ucol had left the account for 1 000 uharbor.  Now the second bid sees what the first
+   left: debt 499 003, collateral 998 948 = what the account holds *)
+Definition f6_lk : locked := mkLk 1000006 500003 0 0 2 false false false.
+Definition f6_led : ledger := fun k => if k =? 0 then 1000006 else if k =? 11 then 5000000 else if k =? 13 then 5000000 else 0.
+Example c10_fill_two_partials_regression :
+  exists a0, activate f_cf f6_lk 0 (Some 1000000) (Some 1000000) = Ok a0 /\
+  let f := run f_cf f6_lk (mkLife (mkS f6_led None 0 0) (Some a0) 0 0 0 nobook 0)
+               [Deposit 0 5 1 false; Deposit 1 5 999 false; Tick 2550 (Some 1000000) (Some 1000000); Fill [0; 1] 1000000 true] in
+  (exists a, f_a f = Some a /\ a_debt a = 499003 /\ a_coll a = 998948) /\
+  f_paid f = 1000 /\ f_recv f = 1058 /\ f_pool f = 0 /\ f_book f 5 0 = 0 /\ f_book f 5 1 = 0 /\
+  led (f_s f) AUC_C = 998948 /\ led (f_s f) AUC_D = 1000 /\ led (f_s f) (BID_C 0) = 1 /\ led (f_s f) (BID_C 1) = 1057.
+Proof.
+  eexists. split; [vm_compute; reflexivity|]. vm_compute. split; [eexists; repeat split; reflexivity|].
+  repeat split; reflexivity.
+Qed.
+
+(* regression, C10-F6 liveness half (fixed) = harness corpus case 6: debt 1 000 000, collateral 2 000 000, limit
+   bids 3 000 000 (bidder 0) and 250 000 (bidder 1) at discount 5.  Before the repair the first bid closed the
+   auction, the second failed on the stale copy and the closure was rolled back on every block; now the
+   closure ends with the closing bid, bidder 1's limit bid is untouched *)
+Definition f6c_lk : locked := mkLk 2000000 1000000 0 0 2 false false false.
+Definition f6c_led : ledger := fun k => if k =? 0 then 2000000 else if k =? 11 then 5000000 else if k =? 13 then 5000000 else 0.
+Example c10_fill_closing_first_regression :
+  exists a0, activate f_cf f6c_lk 0 (Some 1000000) (Some 1000000) = Ok a0 /\
+  let f := run f_cf f6c_lk (mkLife (mkS f6c_led None 0 0) (Some a0) 0 0 0 nobook 0)
+               [Deposit 0 5 3000000 false; Deposit 1 5 250000 false; Tick 2550 (Some 1000000) (Some 1000000); Fill [0; 1] 1000000 true] in
+  f_a f = None /\ f_paid f = 1000000 /\ f_recv f = 1058201 /\ f_book f 5 0 = 2000000 /\ f_book f 5 1 = 250000 /\
+  f_pool f = 2250000 /\ led (f_s f) AUC_D = 2250000 /\ led (f_s f) AUC_C = 0 /\ led (f_s f) INI_D = 1000000 /\
+  led (f_s f) OWN_C = 941799.
+Proof. eexists. split; [vm_compute; reflexivity|]. vm_compute. repeat split; reflexivity. Qed.
+
+(* non-vacuity of c10_custody / c10_totals over a history with every kind of op: a vault auction with an
+   internal keeper takes a limit-bid deposit, a market bid, a tick into the discount of the limit bid, the
+   fill (partial) and a closing market bid; the account is left with exactly the rest of the limit bid *)
+Example c10_history_nonvacuous :
+  exists a0, activate ex_cf ex_lk 0 (Some 1200000) (Some 1000000) = Ok a0 /\
+  let ops := [Deposit 1 4 300000 false; Bid 0 400000 false 1000000; Tick 2400 (Some 1200000) (Some 1000000);
+              Fill [0; 1] 1000000 true; Bid 0 9999999 false 1000000] in
+  Forall op_ok2 ops /\
+  let f := run ex_cf ex_lk (mkLife (mkS ex_led None 0 0) (Some a0) 0 0 0 nobook 0) ops in
+  f_a f = None /\ f_paid f = 1120000 /\ f_pool f = 0 /\ f_book f 4 1 = 0 /\
+  led (f_s f) AUC_C = 0 /\ led (f_s f) AUC_D = 0 /\ led (f_s f) BRN_D = 1000000 /\
+  led (f_s f) COL_D = 108000 /\ led (f_s f) KEE_D = 12000 /\ nfee (f_s f) = 108000.
+Proof.
+  eexists. split; [vm_compute; reflexivity|]. split.
+  - assert (T : tick_in_ok (Some 1200000)) by (intros t [= <-]; lia).
+    unfold op_ok2, op_ok. repeat (apply Forall_cons || apply Forall_nil); repeat split; try lia; try exact T;
+      repeat (apply Forall_cons || apply Forall_nil); lia.
+  - vm_compute. repeat split; reflexivity.
+Qed.
 
 (* ------------------------------------------------------------------------------------------ *)
 (* Generation 1 (x/auction): vault auctions (dutch.go) and lend auctions (dutch_lend.go).  A bid names an
@@ -437,7 +639,7 @@ Theorem c10_bid_needs_debt_price : forall cf lk a s who amt0 wd dact twa,
      dact = true /\ place_bid_core cf lk a s who amt0 wd twa = Ok x) /\
   (dact = false -> exists c, place_bid cf lk a s who amt0 wd dact twa = Err c).
 Proof.
-  intros cf lk a s who amt0 wd dact twa. unfold place_bid. split.
+  intros cf lk a s who amt0 wd dact twa. unfold place_bid, place_bid_a, place_bid_core. split.
   - intros x H. destruct (amt0 <=? 0); [discriminate|]. destruct wd; [discriminate|].
     destruct dact; cbn [negb] in H; [split; [reflexivity|exact H]|discriminate].
   - intros ->. destruct (amt0 <=? 0); [eexists; reflexivity|]. destruct wd; eexists; reflexivity.
